@@ -58,6 +58,14 @@ pub fn matches(predicate: &str, v: &Viol) -> bool {
             v.clause == "process-abort-or-hang"
                 && matches!(&v.case, Case::C01(t) if t.target == crate::prop::c01::T01::DeepWide)
         }
+        // C11: the parser (dependency) does not know the byte-order mark that YAML allows in front of every
+        // document; the library strips only the one at the start of the stream. In front of a later document
+        // (or behind an explicit `---`) the mark becomes part of the first scalar.
+        "c11_bom_inside_stream" => {
+            matches!(v.clause.as_str(), "batch-differs-from-documents" | "iterator-differs-from-documents")
+                && v.detail.contains("feff")
+                && matches!(&v.case, Case::C11(c) if crate::prop::c11::build_stream(c).chars().skip(1).any(|ch| ch == '\u{feff}'))
+        }
         _ => false,
     }
 }
